@@ -533,3 +533,25 @@ def for_property(pid, tier, seed):
     if pid == "C11":
         return [("c04funding", c04(tier, seed)), ("c06funding", c06f(tier, seed))]
     return []
+
+
+# ------------------------------------------------------------------------------------------------
+SCALE_KEYS = {"margin", "amount", "limit", "price", "hcap", "oicap", "leverage", "toll", "spread", "fluct", "imr", "mmr",
+              "plr", "liqfee", "x", "y", "trader_bal", "ifund_bal", "engine_bal", "fpool_bal", "oracle", "funds", "allowance"}
+
+def to_production_scale(scn, k=10 ** 4):
+    """the same scenario at the repository's real scale (6 decimals): every amount / ratio x 10^4"""
+    def sc(v, key=None):
+        if isinstance(v, dict):
+            return {kk: sc(x, kk) for kk, x in v.items()}
+        if isinstance(v, list):
+            return [sc(x, key) for x in v]
+        if isinstance(v, bool):
+            return v
+        if isinstance(v, int) and key in SCALE_KEYS:
+            return v * k
+        return v
+    d = sc(scn.get("deploy", {}))
+    d["big"] = True
+    d.pop("dec", None)
+    return dict(id="P-" + scn.get("id", ""), deploy=d, ops=sc(scn.get("ops", [])))
